@@ -339,8 +339,23 @@ def impl(case):
     else:                                   # corpus files written before the scorer existed
         from harness.learners import PassThrough
         est, method = PassThrough(), "predict"
-    to = ThresholdOptimizer(estimator=est, constraints=case["constraint"], objective=case["objective"],
-                            grid_size=case["grid"], flip=case["flip"], prefit=True, predict_method=method)
+    import hashlib as _h, json as _j
+    hv = int(_h.sha1(_j.dumps({k_: v_ for k_, v_ in case.items() if not str(k_).startswith("_")},
+                                sort_keys=True, default=str).encode()).hexdigest(), 16)
+    if hv % 4 == 0:
+        # the same estimator object first configured with another grid size / flip and fitted, then
+        # re-configured through set_params: the fitted rule must describe the last configuration only
+        to = ThresholdOptimizer(estimator=est, constraints=case["constraint"], objective=case["objective"],
+                                grid_size=(3 if case["grid"] != 3 else 7), flip=not case["flip"], prefit=True,
+                                predict_method=method)
+        try:
+            to.fit(X, y, sensitive_features=g)
+        except Exception:
+            pass
+        to.set_params(grid_size=case["grid"], flip=case["flip"])
+    else:
+        to = ThresholdOptimizer(estimator=est, constraints=case["constraint"], objective=case["objective"],
+                                grid_size=case["grid"], flip=case["flip"], prefit=True, predict_method=method)
     to.fit(X, y, sensitive_features=g)
     d = to.interpolated_thresholder_.interpolation_dict
     rules = {}
